@@ -316,15 +316,23 @@ def u9_cases(seed, lo, hi, extra):
                     n.attrs = []
                 return q
             want_a = xmlfmt.accept(res[1], drop_deleted_tail=True)
-            want_r = bare(xmlfmt.reject(res[1]))
+            want_ra = xmlfmt.reject(res[1])
+            want_r = bare(want_ra)
             bad = None
-            if not mo.startswith("ok ") or " | " not in mo:
+            if not mo.startswith("ok ") or mo.count(" | ") != 2:
                 bad = mo[:200]
             else:
-                ma, mr = mo[3:].split(" | ", 1)
+                ma, mr, mra = mo[3:].split(" | ")
                 bad = xt.doc_eq(xt.dec_tree(ma), want_a) or xt.doc_eq(xt.dec_tree(mr), want_r)
                 if bad is None and [n.attrs for n in xt.dec_tree(ma).iter()] != [n.attrs for n in want_a.iter()]:
                     bad = "attribute order"
+                if bad is None:
+                    # Fin.rejFTA: the same projection with the diff:*-attr annotations decoded (Rej.rejAttrs), against
+                    # the oracle's restore_attrs, node by node, attributes as a mapping
+                    got = [(n.tag, sorted(n.attrs)) for n in xt.dec_tree(mra).iter()]
+                    exp = [(n.tag, sorted(n.attrs)) for n in want_ra.iter()]
+                    if got != exp:
+                        bad = "decoded attributes: model %r oracle %r" % (got[:6], exp[:6])
             if bad:
                 st.disagreements.append({"unit": "U9p", "real": xt.to_xml(res[1])[:900], "model": str(bad)[:300], **desc})
             continue
